@@ -1,6 +1,7 @@
 /- C15 — bad input fails cleanly: property theorems (only).
    Helper lemmas: `Proofs/C15NoLeak.lean`; concrete data: `Proofs/C15Witness.lean`. -/
 import XsdataModel.Proofs.C15NoLeak
+import XsdataModel.Proofs.C15Union
 import XsdataModel.Proofs.C15Witness
 import XsdataModel.Fault.Doc
 import XsdataModel.Proofs.C15Dict
@@ -85,16 +86,20 @@ theorem no_leak_document (e : BEnv) (he : e.isNCName [] = false) (Γ : Ctx) (cfg
     (c : ClassId) (tok : Tok) (py : String) :
     parseDocument e Γ cfg c tok ≠ .error (.leaked py) := by
   cases tok with
-  | tree t => exact no_leak_parse e he Γ cfg c t py
+  | tree t => exact (parseRootU_clean e he Γ cfg c t).not_leaked py
   | syntaxError => intro h; cases h
   | codecError s => intro h; cases h
+  | includeError => intro h; cases h
+  | stopped => intro h; cases h
+  | textDecodeError => intro h; cases h
 
 /-- every tokenizer outcome is inhabited and maps where it should -/
 example :
     parseDocument Witness.env Witness.ctx {} "Root".toList (.tree Witness.docMissing) = .error (.parser "Failed to create") ∧
     parseDocument Witness.env Witness.ctx {} "Root".toList .syntaxError = .error (.parser "syntax error") ∧
-    parseDocument Witness.env Witness.ctx {} "Root".toList (.codecError "LookupError") = .error (.parser "codec error") :=
-  ⟨rfl, rfl, rfl⟩
+    parseDocument Witness.env Witness.ctx {} "Root".toList (.codecError "LookupError") = .error (.parser "codec error") ∧
+    parseDocument Witness.env Witness.ctx {} "Root".toList .includeError = .error (.parser "xinclude error") :=
+  ⟨rfl, rfl, rfl, rfl⟩
 
 /-- not well-formed ⇒ rejected, with `ParserError` -/
 theorem malformed_rejected (e : BEnv) (Γ : Ctx) (cfg : ParserConfig) (c : ClassId) :
